@@ -31,11 +31,10 @@ import (
 
 	"github.com/AdguardTeam/AdGuardDNS/internal/agdtest"
 	"github.com/AdguardTeam/AdGuardDNS/internal/backendpb"
-	"github.com/AdguardTeam/AdGuardDNS/internal/consul"
-	"github.com/AdguardTeam/AdGuardDNS/internal/dnsserver/ratelimit"
 	"github.com/AdguardTeam/golibs/logutil/slogutil"
-	"github.com/AdguardTeam/golibs/netutil"
+	"github.com/AdguardTeam/golibs/netutil/urlutil"
 	"github.com/miekg/dns"
+	"github.com/prometheus/client_golang/prometheus"
 	"google.golang.org/grpc"
 	"google.golang.org/grpc/codes"
 	"google.golang.org/grpc/credentials/insecure"
@@ -60,6 +59,7 @@ type vc09Settings struct {
 	Est                  int
 	Refuse               bool
 	Allow                []string // as written: an address or a CIDR, not masked
+	alType               string
 	allowParsed          []netip.Prefix
 	connStop, connResume int
 }
@@ -94,7 +94,7 @@ func (s *vc09Settings) yaml() string {
     allowlist:
         list:%s
         refresh_interval: 1h
-        type: 'consul'
+        type: '%s'
     connection_limit:
         enabled: true
         stop: %d
@@ -105,7 +105,7 @@ func (s *vc09Settings) yaml() string {
     tcp:
         enabled: true
         max_pipeline_count: 55
-`, s.Refuse, s.Est, s.Lim4, s.Ivl4, s.KL4, s.Lim6, s.Ivl6, s.KL6, s.Period, s.Count, s.Duration, list, s.connStop, s.connResume)
+`, s.Refuse, s.Est, s.Lim4, s.Ivl4, s.KL4, s.Lim6, s.Ivl6, s.KL6, s.Period, s.Count, s.Duration, list, s.alType, s.connStop, s.connResume)
 }
 
 func vc09CMask(ip netip.Addr, bits int) string {
@@ -278,11 +278,11 @@ func vc09DrawDistinct[V comparable](t *rapid.T, label string, from []V, not ...V
 
 func TestVerifC09ConfigPlumbing(t *testing.T) {
 	st := vstat.New("C09", "cmd.plumbing",
-		"rapid: a `ratelimit:` YAML section with every setting different from its neighbours (ipv4 vs ipv6 count / interval / subnet_key_len, backoff period vs duration vs intervals, backoff count vs counts, size estimate, refuseany, v4 and v6 allowlist entries; the dynamic allowlist comes from the real consul.AllowlistUpdater or the real backendpb.RateLimiter fed by loopback stand-ins, sometimes followed by a failing refresh) is parsed, validated and converted by package cmd's own code into the global Backoff; constructed real-time scenarios (queries straddling the two intervals, hits spread over a time between period and duration, a query between period and duration after backoff was entered, two hosts told apart by one key length only, a response just above the estimate) and random queries are judged by the shared reference parameterised by the YAML values; a shadow reference with one pair swapped measures that the history told the pair apart; non-trivial = some shadow was refuted, distinct by (settings, history)",
+		"rapid: a `ratelimit:` YAML section with every setting different from its neighbours (ipv4 vs ipv6 count / interval / subnet_key_len, backoff period vs duration vs intervals, backoff count vs counts, size estimate, refuseany, v4 and v6 allowlist entries; the dynamic allowlist comes from the real consul.AllowlistUpdater or the real backendpb.RateLimiter fed by loopback stand-ins, sometimes followed by a failing refresh) is parsed and validated by package cmd's own code and built into the global Backoff by the real builder.initRateLimiter (initial refresh included; one more successful refresh with another answer and/or a failing one follow through the refresher it registered); constructed real-time scenarios (queries straddling the two intervals, hits spread over a time between period and duration, a query between period and duration after backoff was entered, two hosts told apart by one key length only, a response just above the estimate) and random queries are judged by the shared reference parameterised by the YAML values; a shadow reference with one pair swapped measures that the history told the pair apart; non-trivial = some shadow was refuted, distinct by (settings, history)",
 		"v4-and-v6-intervals-differ", "v6-verdict-depends-on-v6-interval", "v4-verdict-depends-on-v4-interval",
 		"v6-verdict-depends-on-v6-count", "v4-verdict-depends-on-v4-count", "v6-verdict-depends-on-v6-key-len", "v4-verdict-depends-on-v4-key-len",
 		"verdict-depends-on-period-vs-duration", "verdict-depends-on-backoff-count-vs-ipv4-count", "verdict-depends-on-response-size-estimate",
-		"verdict-depends-on-allowlist", "verdict-depends-on-dynamic-allowlist", "dynamic-allowlist-kept-after-failed-refresh", "dynamic-allowlist-from-consul", "dynamic-allowlist-from-backend", "any-refusal-configured-and-any-query", "allowlisted-v4", "allowlisted-v6")
+		"verdict-depends-on-allowlist", "verdict-depends-on-dynamic-allowlist", "static-allowlist-after-successful-refresh", "static-allowlist-after-two-refreshes", "verdict-depends-on-static-allowlist", "verdict-depends-on-last-refresh-replacing-the-previous", "dynamic-allowlist-kept-after-failed-refresh", "dynamic-allowlist-from-consul", "dynamic-allowlist-from-backend", "any-refusal-configured-and-any-query", "allowlisted-v4", "allowlisted-v6")
 	st.Finish(t)
 
 	// A loopback stand-in for the Consul service that feeds the dynamic part of
@@ -330,6 +330,7 @@ func TestVerifC09ConfigPlumbing(t *testing.T) {
 		s.KL4 = rapid.SampledFrom([]int{24, 20, 31, 16}).Draw(t, "kl4")
 		s.KL6 = rapid.SampledFrom([]int{64, 48, 56, 28, 120}).Draw(t, "kl6")
 		s.Est = rapid.SampledFrom([]int{90, 130, 200}).Draw(t, "est")
+		s.alType = rapid.SampledFrom([]string{rlAllowlistTypeConsul, rlAllowlistTypeBackend}).Draw(t, "allowlistType")
 
 		base4 := netip.MustParseAddr("192.0.2.77")
 		base6 := netip.MustParseAddr("2001:db8:0:1::1")
@@ -364,83 +365,113 @@ func TestVerifC09ConfigPlumbing(t *testing.T) {
 			t.Fatalf("generated configuration rejected: %v\n%s", err, text)
 		}
 
-		allowlist := ratelimit.NewDynamicAllowlist(netutil.UnembedPrefixes(rc.Allowlist.List), nil)
-		l := ratelimit.NewBackoff(rc.toInternal(allowlist))
-
-		// The dynamic part: a successful refresh from the Consul stand-in, in
-		// some cases followed by a failing one, which must leave the list as it
-		// was.
+		// Build the limiter with the builder's own method, against loopback
+		// stand-ins for the allowlist source of the configured type.  The
+		// method performs the initial refresh itself; further refreshes go
+		// through the refresher it registered.
 		dyn4, dyn6 := netip.MustParseAddr("203.0.113.40"), netip.MustParseAddr("2001:db8:d::40")
-		dynMode := rapid.SampledFrom([]string{"none", "consul", "consul-then-failed", "backend", "backend-then-failed"}).Draw(t, "dynamic")
-		switch dynMode {
-		case "consul", "consul-then-failed":
-			upd := consul.NewAllowlistUpdater(&consul.AllowlistUpdaterConfig{
-				Logger:    slogutil.NewDiscardLogger(),
-				Allowlist: allowlist,
-				ConsulURL: consulURL,
-				ErrColl:   errColl,
-				Metrics:   consul.EmptyMetrics{},
-				Timeout:   5 * time.Second,
-			})
-			body, _ := json.Marshal([]map[string]string{{"Address": dyn4.String()}, {"Address": dyn6.String()}})
+		dynB4, dynB6 := netip.MustParseAddr("203.0.113.140"), netip.MustParseAddr("2001:db8:e::40")
+		// Unaligned, not masked (the Consul source only knows single addresses).
+		bits4, bits6 := 32, 128
+		if s.alType == rlAllowlistTypeBackend {
+			bits4 = rapid.SampledFrom([]int{32, 25, 29}).Draw(t, "dynBits4")
+			bits6 = rapid.SampledFrom([]int{128, 64, 121}).Draw(t, "dynBits6")
+		}
+
+		setSource := func(fail bool, addrs ...netip.Addr) {
+			var recs []map[string]string
+			var cidrs []*backendpb.CidrRange
+			for _, a := range addrs {
+				recs = append(recs, map[string]string{"Address": a.String()})
+				bits := bits4
+				if a.Is6() {
+					bits = bits6
+				}
+
+				cidrs = append(cidrs, &backendpb.CidrRange{Address: a.AsSlice(), Prefix: uint32(bits)})
+			}
+
+			body, _ := json.Marshal(recs)
+			if recs == nil {
+				body = []byte("[]")
+			}
+
 			consulMu.Lock()
 			consulStatus, consulBody = http.StatusOK, string(body)
-			consulMu.Unlock()
-			if err := upd.Refresh(ctx); err != nil {
-				t.Fatalf("refreshing the allowlist from the loopback stand-in: %v", err)
-			}
-
-			if dynMode == "consul-then-failed" {
-				consulMu.Lock()
+			if fail {
 				consulStatus, consulBody = rapid.SampledFrom([]int{http.StatusInternalServerError, http.StatusOK}).Draw(t, "failStatus"), "{not json"
-				consulMu.Unlock()
-				if err := upd.Refresh(ctx); err == nil {
-					t.Fatalf("a failing allowlist refresh reported no error")
-				}
 			}
+			consulMu.Unlock()
 
-			s.allowParsed = append(s.allowParsed, netip.PrefixFrom(dyn4, 32), netip.PrefixFrom(dyn6, 128))
-		case "backend", "backend-then-failed":
-			upd, err := backendpb.NewRateLimiter(&backendpb.RateLimiterConfig{
-				Logger:      slogutil.NewDiscardLogger(),
-				GRPCMetrics: backendpb.EmptyGRPCMetrics{},
-				Metrics:     consul.EmptyMetrics{},
-				Allowlist:   allowlist,
-				ErrColl:     errColl,
-				Endpoint:    backendURL,
-			})
-			if err != nil {
-				t.Fatalf("backend rate limiter: %v", err)
-			}
-
-			// Unaligned, not masked.
-			bits4 := rapid.SampledFrom([]int{32, 25, 29}).Draw(t, "dynBits4")
-			bits6 := rapid.SampledFrom([]int{128, 64, 121}).Draw(t, "dynBits6")
 			backend.mu.Lock()
-			backend.fail = false
-			backend.cidrs = []*backendpb.CidrRange{{Address: dyn4.AsSlice(), Prefix: uint32(bits4)}, {Address: dyn6.AsSlice(), Prefix: uint32(bits6)}}
+			backend.fail, backend.cidrs = fail, cidrs
 			backend.mu.Unlock()
-			rctx, cancel := context.WithTimeout(ctx, 5*time.Second)
-			err = upd.Refresh(rctx)
-			cancel()
-			if err != nil {
-				t.Fatalf("refreshing the allowlist from the loopback backend: %v", err)
-			}
-
-			if dynMode == "backend-then-failed" {
-				backend.mu.Lock()
-				backend.fail = true
-				backend.mu.Unlock()
-				rctx, cancel = context.WithTimeout(ctx, 5*time.Second)
-				err = upd.Refresh(rctx)
-				cancel()
-				if err == nil {
-					t.Fatalf("a failing allowlist refresh reported no error")
+		}
+		dynPrefixes := func(addrs ...netip.Addr) (ps []netip.Prefix) {
+			for _, a := range addrs {
+				if a.Is4() {
+					ps = append(ps, netip.PrefixFrom(a, bits4))
+				} else {
+					ps = append(ps, netip.PrefixFrom(a, bits6))
 				}
 			}
 
-			s.allowParsed = append(s.allowParsed, netip.PrefixFrom(dyn4, bits4), netip.PrefixFrom(dyn6, bits6))
+			return ps
 		}
+
+		bld := newBuilder(&builderConfig{
+			envs: &environment{
+				ConsulAllowlistURL:  &urlutil.URL{URL: *consulURL},
+				BackendRateLimitURL: &urlutil.URL{URL: *backendURL},
+			},
+			conf:       &configuration{RateLimit: rc, Check: &checkConfig{RemoteKV: &remoteKVConfig{Type: kvModeCache}}},
+			baseLogger: slogutil.NewDiscardLogger(),
+			errColl:    errColl,
+		})
+		bld.promRegisterer = prometheus.NewRegistry()
+		ictx, cancel := context.WithTimeout(ctx, 20*time.Second)
+		defer cancel()
+		if err := bld.initGRPCMetrics(ictx); err != nil {
+			t.Fatalf("initGRPCMetrics: %v", err)
+		}
+
+		firstEmpty := rapid.IntRange(0, 3).Draw(t, "firstRefreshEmpty") == 0
+		dynNow := []netip.Addr{dyn4, dyn6}
+		if firstEmpty {
+			dynNow = nil
+		}
+
+		setSource(false, dynNow...)
+		if err := bld.initRateLimiter(ictx); err != nil {
+			t.Fatalf("initRateLimiter: %v\n%s", err, text)
+		}
+
+		l := bld.rateLimit
+		refresher := bld.debugRefrs[debugIDAllowlist]
+		refreshes := []string{fmt.Sprintf("initial refresh -> %v", dynNow)}
+		dynMode := rapid.SampledFrom([]string{"one-refresh", "two-refreshes", "two-refreshes", "then-failed", "two-then-failed"}).Draw(t, "dynamic")
+		if strings.HasPrefix(dynMode, "two") {
+			// The second answer replaces the first: its entries are gone.
+			dynNow = []netip.Addr{dynB4, dynB6}
+			setSource(false, dynNow...)
+			if err := refresher.Refresh(ictx); err != nil {
+				t.Fatalf("second refresh: %v", err)
+			}
+
+			refreshes = append(refreshes, fmt.Sprintf("second refresh -> %v", dynNow))
+		}
+
+		if strings.HasSuffix(dynMode, "failed") {
+			setSource(true)
+			if err := refresher.Refresh(ictx); err == nil {
+				t.Fatalf("a failing allowlist refresh reported no error")
+			}
+
+			refreshes = append(refreshes, "failed refresh")
+		}
+
+		static := s.allowParsed
+		s.allowParsed = append(append([]netip.Prefix(nil), static...), dynPrefixes(dynNow...)...)
 
 		main := vc09NewWorld(s)
 		swap := func(f func(m *vc09Settings)) *vc09World {
@@ -460,7 +491,11 @@ func TestVerifC09ConfigPlumbing(t *testing.T) {
 			{"verdict-depends-on-backoff-count-vs-ipv4-count", swap(func(m *vc09Settings) { m.Count, m.Lim4 = s.Lim4, s.Count })},
 			{"verdict-depends-on-response-size-estimate", swap(func(m *vc09Settings) { m.Est = 2 * s.Est })},
 			{"verdict-depends-on-allowlist", swap(func(m *vc09Settings) { m.allowParsed = nil })},
-			{"verdict-depends-on-dynamic-allowlist", swap(func(m *vc09Settings) { m.allowParsed = m.allowParsed[:2:2] })},
+			{"verdict-depends-on-dynamic-allowlist", swap(func(m *vc09Settings) { m.allowParsed = static })},
+			{"verdict-depends-on-static-allowlist", swap(func(m *vc09Settings) { m.allowParsed = dynPrefixes(dynNow...) })},
+			{"verdict-depends-on-last-refresh-replacing-the-previous", swap(func(m *vc09Settings) {
+				m.allowParsed = append(append([]netip.Prefix(nil), s.allowParsed...), dynPrefixes(dyn4, dyn6)...)
+			})},
 			{"verdict-depends-on-refuseany", swap(func(m *vc09Settings) { m.Refuse = !s.Refuse })},
 		}
 
@@ -499,6 +534,16 @@ func TestVerifC09ConfigPlumbing(t *testing.T) {
 					for _, sh := range shadows {
 						sh.w.s.Refuse = false
 					}
+				}
+			}
+
+			if !(main.s.Refuse && qt == dns.TypeANY) && (&vc09World{s: vc09Settings{allowParsed: static}}).allowed(ip) &&
+				!(&vc09World{s: vc09Settings{allowParsed: dynPrefixes(dynNow...)}}).allowed(ip) {
+				// In the configuration file only; at least one successful refresh
+				// has replaced the dynamic list since.
+				classes["static-allowlist-after-successful-refresh"] = true
+				if strings.HasPrefix(dynMode, "two") {
+					classes["static-allowlist-after-two-refreshes"] = true
 				}
 			}
 
@@ -614,16 +659,25 @@ func TestVerifC09ConfigPlumbing(t *testing.T) {
 			}
 		}
 
-		switch dynMode {
-		case "consul-then-failed", "backend-then-failed":
+		if strings.HasSuffix(dynMode, "failed") {
 			classes["dynamic-allowlist-kept-after-failed-refresh"] = true
 		}
 
-		if dynMode != "none" {
-			classes["dynamic-allowlist-from-"+strings.SplitN(dynMode, "-", 2)[0]] = true
+		// A client allowlisted in the configuration file only floods: it is
+		// never dropped, whatever the refreshes brought.
+		flooder := al4
+		if rapid.Bool().Draw(t, "staticFlooder6") {
+			flooder = al6
 		}
 
-		pool := []netip.Addr{dyn4, dyn6, vc09CFlip(dyn4, 31), vc09CFlip(dyn4, 24), vc09CFlip(dyn6, 120), vc09CFlip(dyn6, 127), base4, vc09CFlip(base4, s.KL4), vc09CFlip(base4, s.KL4-1), base6, vc09CFlip(base6, s.KL6-1), al4, vc09CFlip(al4, 31), vc09CFlip(al4, 24), al6, vc09CFlip(al6, 127), vc09CFlip(al6, 63)}
+		for j := 0; j < max(s.Lim4, s.Lim6)+2; j++ {
+			query(flooder, dns.TypeA, 0)
+		}
+
+		classes["dynamic-allowlist-from-"+s.alType] = true
+		lines = append(lines, refreshes...)
+
+		pool := []netip.Addr{dyn4, dyn6, dynB4, dynB6, vc09CFlip(dyn4, 31), vc09CFlip(dyn4, 24), vc09CFlip(dynB4, 31), vc09CFlip(dyn6, 120), vc09CFlip(dyn6, 127), base4, vc09CFlip(base4, s.KL4), vc09CFlip(base4, s.KL4-1), base6, vc09CFlip(base6, s.KL6-1), al4, vc09CFlip(al4, 31), vc09CFlip(al4, 24), al6, vc09CFlip(al6, 127), vc09CFlip(al6, 63)}
 		for j, n := 0, rapid.IntRange(2, 8).Draw(t, "tail"); j < n; j++ {
 			if rapid.IntRange(0, 5).Draw(t, "pause") == 0 {
 				sleep(rapid.SampledFrom([]time.Duration{u, s.Ivl4 + u, s.Ivl6 + u}).Draw(t, "pauseLen"))
